@@ -58,7 +58,7 @@ def worker(sh):
         if h == 0:
             ent = []
         if h == 1:
-            ent = [(i, rng.choice(NZ)) for i in range(l)]
+            ent = [(i, (rng.choice(NZ) if rng.random() < 0.7 else (wkd.big_id(rng) % R or 1) + rng.choice([0, R]) * (rng.random() < 0.5))) for i in range(l)]
         op = rng.choice(['keygen', 'keygen', 'ndkeygen'])
         kid, pat = sc.keyop(op, 0, l, ent, False)
         keys.append((kid, pat, op))
